@@ -113,6 +113,9 @@ ENSURES(children_values_nonnegative, un->_down[ghost_g] == 0 || ev->ev_long < -V
 ENSURES(nothing_factored_from_empty_node, *nnz != 0 || ev->ev_long == 0)
 ;
 
+/* float equality that treats two NaNs as equal (entries other than the ghost one may hold anything) */
+#define FEQ(a, b) (((a) == (b)) || ((a) != (a) && (b) != (b)))
+#define FDIV(a, b) ((a) / (b))
 /* ---- EV* normalisation --------------------------------------------------------------------- */
 void normalize_evstar_float(struct unpacked_node *un, struct edge_value *ev, unsigned *nnz)
 UN_REQ(un)
@@ -126,7 +129,7 @@ ENSURES(counts_real_children, un->_down[ghost_g] == 0 || *nnz >= 1)
 ENSURES(two_real_children_counted_twice, ghost_g == ghost_h || un->_down[ghost_g] == 0 || un->_down[ghost_h] == 0 || *nnz >= 2)
 ENSURES(factored_value_is_float, ev->mytype == edge_type__FLOAT)
 ENSURES(transparent_children_carry_zero, un->_down[ghost_g] != 0 || (un->_edge[ghost_g].mytype == edge_type__FLOAT && EVF(un, ghost_g) == 0.0f))
-ENSURES(value_is_old_over_factor, un->_down[ghost_g] == 0 || ev->ev_float == 0.0f || ev->ev_float == 1.0f || EVF(un, ghost_g) == __CPROVER_old(EVF(un, ghost_g)) / ev->ev_float)
+ENSURES(value_is_old_over_factor, un->_down[ghost_g] == 0 || ev->ev_float == 0.0f || ev->ev_float == 1.0f || FEQ(EVF(un, ghost_g), FDIV(__CPROVER_old(EVF(un, ghost_g)), ev->ev_float)))
 ENSURES(factor_one_changes_nothing, un->_down[ghost_g] == 0 || !(ev->ev_float == 1.0f) || EVF(un, ghost_g) == __CPROVER_old(EVF(un, ghost_g)))
 ENSURES(nothing_factored_from_empty_node, *nnz != 0 || ev->ev_float == 0.0f)
 ;
@@ -190,4 +193,18 @@ ENSURES(redundant_elimination_only_where_allowed, verif_exc != 0 || LOOKED || g_
         ((self->deflt.reduction == reduction_rule__FULLY_REDUCED || (self->deflt.reduction == reduction_rule__IDENTITY_REDUCED && un->level > 0)) && (int)un->size >= g_levelsize && g_unlinks == O(g_unlinks) + un->size - 1))
 ENSURES(identity_elimination_only_where_allowed, verif_exc != 0 || LOOKED || g_unlinks != O(g_unlinks) || *node == 0 ||
         (self->deflt.reduction == reduction_rule__IDENTITY_REDUCED && un->level < 0 && (un->is_full ? (0 <= in && (unsigned)in < un->size && un->_down[in] == *node) : (long)un->_index[0] == (long)in)))
+;
+
+/* ---- node deletion (the stub forest__deleteNode of U-hdr is this function) -------------------- */
+void forest__deleteNode(struct forest *self, node_handle p)
+__CPROVER_requires(__CPROVER_is_fresh(self, sizeof(*self)))
+__CPROVER_requires(__CPROVER_is_fresh(self->unique, 1) && __CPROVER_is_fresh(self->nodeMan, 1) && self->reachable == NULL)
+__CPROVER_requires(p >= 1)                                       /* MEDDLY_CHECK_RANGE(1, p, 1+lastUsedHandle()) */
+__CPROVER_requires(verif_exc == 0 && g_seq < 1000000 && g_removes < 1000000 && g_udr < 1000000 && g_setaddrs < 1000000 && g_deacts < 1000000)
+__CPROVER_assigns(verif_exc, g_seq, g_removes, g_remove_seq, g_remove_hash, g_remove_node, g_udr, g_udr_seq, g_udr_addr, g_setaddrs, g_setaddr_node, g_setaddr_addr, g_setaddr0_seq, g_deacts, g_deact_seq, g_deact_node)
+__CPROVER_assigns(self->stats.active_nodes)
+ENSURES(removed_from_unique_table_under_its_hash, g_removes == O(g_removes) + 1 && g_remove_node == p && g_remove_hash == g_node_hash)
+ENSURES(children_released_and_storage_recycled_once, g_udr == O(g_udr) + 1 && g_udr_addr == g_old_addr && g_remove_seq < g_udr_seq)
+ENSURES(address_cleared_then_handle_deactivated, verif_exc != 0 || (g_setaddrs == O(g_setaddrs) + 1 && g_setaddr_node == p && g_setaddr_addr == 0 && g_udr_seq < g_setaddr0_seq && g_deacts == O(g_deacts) + 1 && g_deact_node == p && g_setaddr0_seq < g_deact_seq))
+ENSURES(node_count_decremented, verif_exc != 0 || self->stats.active_nodes == O(self->stats.active_nodes) - 1)
 ;
